@@ -2,6 +2,7 @@ pub mod c07;
 pub mod c08;
 pub mod c09;
 pub mod c10;
+pub mod c17;
 pub mod c19;
 pub mod c20;
 pub mod common;
